@@ -1,5 +1,5 @@
-/- Oracle driver for C02 (stub: replaced when the property's model is built). -/
-import Golem.Driver.Util
+/- Oracle driver for C02: the C01 driver (same model, same requests; the negative stream uses `lensd`/`refl`). -/
+import Golem.Driver.C01
 namespace Golem.Driver.C02
-def main : IO Unit := IO.eprintln "oracle: no driver for C02 yet"
+def main : IO Unit := Golem.Driver.C01.main
 end Golem.Driver.C02
